@@ -169,32 +169,6 @@ Plan generate_plan(const Desc& d, const Variant& v, const Profile& pf, uint64_t 
                 }
                 op.posts.push_back(p);
             }
-            // an earlier submission of the same op can change the flow, so that a later one fires in another context than
-            // the fault-free dry run showed: run the op with its posts and turn every process_event that would reach a
-            // machine which is not processing into enqueue_event (known finding KF-1 belongs to the `reentrant` profile)
-            if (!pf.allow_reentrant) {
-                for (int iter = 0; iter < 4; ++iter) {
-                    World t2(gw);
-                    size_t f2 = t2.env.trace.size();
-                    t2.exec(op, idx);
-                    bool changed = false;
-                    const Rec* host = nullptr;
-                    for (size_t i = f2; i < t2.env.trace.size(); ++i) {
-                        const Rec& r = t2.env.trace[i];
-                        if (r.kind <= K_EC) { host = &r; continue; }
-                        if (r.kind != K_POST || !host || r.site != API_PROCESS) continue;
-                        bool busy = r.val ? (host->aux & 2) : (host->aux & 1);
-                        if (busy) continue;
-                        for (auto& p : op.posts)
-                            if (p.occ == r.occ && p.api == API_PROCESS) {
-                                p.api = API_ENQUEUE;
-                                if (!pf.post_enqueue_sub && !p.to_root && host->mach != 0) p.to_root = 1;
-                                changed = true;
-                            }
-                    }
-                    if (!changed) break;
-                }
-            }
         }
         if (want_throw) {
             int k = 1 + (int)rng.below((uint32_t)pf.max_throws);
@@ -205,6 +179,58 @@ Plan generate_plan(const Desc& d, const Variant& v, const Profile& pf, uint64_t 
                 const CbPos& c = cand[rng.below((uint32_t)cand.size())];
                 Throw t; t.cb = c.kind; t.site = c.site; t.nth = c.nth;
                 op.throws.push_back(t);
+            }
+            // C04 / C12: exception_caught is a behaviour too -- it may submit events (seen only when the throws are in place)
+            if (pf.post_rate > 0 && !op.throws.empty() && rng.chance(0.4)) {
+                World t3(gw);
+                size_t f3 = t3.env.trace.size();
+                t3.exec(op, idx);
+                std::vector<CbPos> ecs;
+                std::map<uint32_t, int> cnt3;
+                for (size_t i = f3; i < t3.env.trace.size(); ++i) {
+                    const Rec& r = t3.env.trace[i];
+                    if (r.kind > K_EC) continue;
+                    uint32_t key = ((uint32_t)r.kind << 16) | (uint16_t)r.site;
+                    int n = cnt3[key]++;
+                    if (r.kind == K_EC && r.rep == op.on) ecs.push_back(CbPos{r.kind, r.site, (int16_t)n, r.aux, r.mach});
+                }
+                if (!ecs.empty()) {
+                    const CbPos& c = ecs[rng.below((uint32_t)ecs.size())];
+                    Post p;
+                    p.cb = c.kind; p.site = c.site; p.nth = c.nth;
+                    p.ev = (int16_t)postable[rng.below((uint32_t)postable.size())];
+                    p.occ = occ++;
+                    p.to_root = (pf.post_root && rng.chance(0.3)) || (!pf.post_sub && c.mach != 0);
+                    p.api = (pf.post_enqueue && rng.chance(0.3)) ? API_ENQUEUE : API_PROCESS;
+                    if (p.api == API_ENQUEUE && !pf.post_enqueue_sub && !p.to_root && c.mach != 0) p.to_root = 1;
+                    op.posts.push_back(p);
+                }
+            }
+        }
+        // an earlier submission of the same op can change the flow, so that a later one fires in another context than
+        // the fault-free dry run showed: run the op with its posts and turn every process_event that would reach a
+        // machine which is not processing into enqueue_event (known finding KF-1 belongs to the `reentrant` profile)
+        if (!op.posts.empty() && !pf.allow_reentrant) {
+            for (int iter = 0; iter < 4; ++iter) {
+                World t2(gw);
+                size_t f2 = t2.env.trace.size();
+                t2.exec(op, idx);
+                bool changed = false;
+                const Rec* host = nullptr;
+                for (size_t i = f2; i < t2.env.trace.size(); ++i) {
+                    const Rec& r = t2.env.trace[i];
+                    if (r.kind <= K_EC) { host = &r; continue; }
+                    if (r.kind != K_POST || !host || r.site != API_PROCESS) continue;
+                    bool busy = r.val ? (host->aux & 2) : (host->aux & 1);
+                    if (busy) continue;
+                    for (auto& p : op.posts)
+                        if (p.occ == r.occ && p.api == API_PROCESS) {
+                            p.api = API_ENQUEUE;
+                            if (!pf.post_enqueue_sub && !p.to_root && host->mach != 0) p.to_root = 1;
+                            changed = true;
+                        }
+                }
+                if (!changed) break;
             }
         }
     };
